@@ -464,6 +464,206 @@ Definition echo_stdout (cmd : string) : option string :=
   | [] => None
   end.
 
+(** ** the last statement of [run_vectorized]: [runs = np.array(runs, dtype=dtype)] (and the object array for dtype=False).
+    The operation is uninterpreted, but what it returns carries its KIND: a python bool / int / float / str, or a flat
+    list (1-d array) of such.  numpy collects the list of the row outputs into ONE array whose element type is the
+    promotion over ALL rows (bool < int64 < float64; strings: the longest length), unless a dtype is requested.
+    Not modelled ([KOther], [cast] = None; never generated): numbers and strings in one batch (numpy renders the numbers
+    as decimal strings), the binary64 rounding of integers beyond 2^53 (floats are exact rationals here), rows of
+    different shapes (numpy raises), nan/inf. *)
+
+Inductive scal := SBool (b : bool) | SInt (z : Z) | SFloat (n : Z) (d : positive) | SStr (s : string).
+Inductive skind := KB | KI | KF | KS (len : nat) | KOther.      (* bool_, int64, float64, <U len, anything else *)
+
+Definition kind_of_scal (x : scal) : skind :=
+  match x with
+  | SBool _ => KB
+  | SInt _ => KI
+  | SFloat _ _ => KF
+  | SStr s => KS (Nat.max 1 (String.length s))       (* numpy: an empty string still takes <U1 *)
+  end.
+
+(** numpy's promotion of two element types *)
+Definition promote (a b : skind) : skind :=
+  match a, b with
+  | KOther, _ => KOther
+  | _, KOther => KOther
+  | KS n, KS m => KS (Nat.max n m)
+  | KS _, _ => KOther
+  | _, KS _ => KOther
+  | KF, _ => KF
+  | _, KF => KF
+  | KI, _ => KI
+  | _, KI => KI
+  | KB, KB => KB
+  end.
+
+(** promotion over a whole batch; [np.array([])] is float64 *)
+Definition promote_all (ks : list skind) : skind :=
+  match ks with
+  | [] => KF
+  | k :: r => fold_left promote r k
+  end.
+
+(** [a] can be held by [b] without loss *)
+Definition kind_le (a b : skind) : bool :=
+  match a, b with
+  | _, KOther => true
+  | KOther, _ => false
+  | KS n, KS m => n <=? m
+  | KS _, _ => false
+  | _, KS _ => false
+  | KB, _ => true
+  | KI, KB => false
+  | KI, _ => true
+  | KF, KF => true
+  | KF, _ => false
+  end.
+
+Definition is_other (k : skind) : bool := match k with KOther => true | _ => false end.
+
+(** the C cast numpy applies when an element is stored into an array of kind [k] (also the narrowing ones a user may
+    request with an explicit dtype: float -> int truncates toward zero, number -> bool is "non-zero", <U n cuts) *)
+Definition cast (k : skind) (x : scal) : option scal :=
+  match k, x with
+  | KB, SBool _ => Some x
+  | KB, SInt z => Some (SBool (negb (z =? 0)%Z))
+  | KB, SFloat n _ => Some (SBool (negb (n =? 0)%Z))
+  | KI, SBool b => Some (SInt (Z.b2z b))
+  | KI, SInt _ => Some x
+  | KI, SFloat n d => Some (SInt (Z.quot n (Zpos d)))
+  | KF, SBool b => Some (SFloat (Z.b2z b) 1)
+  | KF, SInt z => Some (SFloat z 1)
+  | KF, SFloat _ _ => Some x
+  | KS n, SStr s => Some (SStr (substring 0 n s))
+  | _, _ => None
+  end.
+
+(** [y] is an element of an array of kind [k] *)
+Definition has_kind (k : skind) (y : scal) : bool :=
+  match k, y with
+  | KB, SBool _ => true
+  | KI, SInt _ => true
+  | KF, SFloat _ _ => true
+  | KS n, SStr s => String.length s <=? n
+  | _, _ => false
+  end.
+
+(** the value an element stands for: an exact rational, or a text *)
+Definition same_value (x y : scal) : bool :=
+  let den (s : scal) : option num := match s with
+                                     | SBool b => Some (Z.b2z b, 1%positive)
+                                     | SInt z => Some (z, 1%positive)
+                                     | SFloat n d => Some (n, d)
+                                     | SStr _ => None
+                                     end in
+  match x, y with
+  | SStr s, SStr t => String.eqb s t
+  | _, _ => match den x, den y with Some a, Some b => num_eqb a b | _, _ => false end
+  end.
+
+Definition scal_eqb (x y : scal) : bool :=
+  match x, y with
+  | SBool a, SBool b => Bool.eqb a b
+  | SInt a, SInt b => (a =? b)%Z
+  | SFloat n d, SFloat n' d' => (n =? n')%Z && Pos.eqb d d'
+  | SStr s, SStr t => String.eqb s t
+  | _, _ => false
+  end.
+
+(** what one call of the operation returned: a scalar or a flat list / 1-d array *)
+Inductive oval := OSc (x : scal) | OVec (l : list scal).
+
+Definition elems (v : oval) : list scal := match v with OSc x => [x] | OVec l => l end.
+Definition shape_eqb (a b : oval) : bool :=
+  match a, b with
+  | OSc _, OSc _ => true
+  | OVec l, OVec m => List.length l =? List.length m
+  | _, _ => false
+  end.
+Definition oval_eqb (a b : oval) : bool := shape_eqb a b && list_eqb scal_eqb (elems a) (elems b).
+
+Definition cast_oval (k : skind) (v : oval) : option oval :=
+  match v with
+  | OSc x => option_map OSc (cast k x)
+  | OVec l => option_map OVec (all_some (map (cast k) l))
+  end.
+
+(** all rows have the shape of the first one (otherwise numpy raises "inhomogeneous shape") *)
+Definition homogeneous (outs : list oval) : bool :=
+  match outs with
+  | [] => true
+  | o :: r => forallb (shape_eqb o) r
+  end.
+
+(** the kinds of ALL elements of ALL rows *)
+Definition kinds (outs : list oval) : list skind := map kind_of_scal (flat_map elems outs).
+
+Definition kind_name (k : skind) : string :=
+  match k with
+  | KB => "bool"
+  | KI => "int64"
+  | KF => "float64"
+  | KS n => String.append "<U" (NilZero.string_of_uint (Nat.to_uint n))
+  | KOther => "other"
+  end%string.
+
+(** the [dtype] argument of [vectorize] *)
+Inductive dreq :=
+| DNone                                   (* default: numpy decides *)
+| DFalse                                  (* no conversion: 1-d object array of the outputs *)
+| DGiven (k : skind) (name : string).     (* explicit dtype: its kind and numpy's name of it *)
+
+(** the returned array: (dtype name, rows).  [None] = numpy raises / outside the model *)
+Definition collect (d : dreq) (outs : list oval) : option (string * list oval) :=
+  match d with
+  | DFalse => Some ("object"%string, outs)
+  | DNone =>
+      if homogeneous outs then
+        let k := promote_all (kinds outs) in
+        option_map (fun r => (kind_name k, r)) (all_some (map (cast_oval k) outs))
+      else None
+  | DGiven k name =>
+      if homogeneous outs then option_map (fun r => (name, r)) (all_some (map (cast_oval k) outs)) else None
+  end.
+
+(** the property's statement about the returned array, evaluated on what was observed: "the array whose i-th entry is
+    the operation applied to the i-th row" = the row outputs collected as numpy collects a list.
+    dtype=False: the entries ARE the outputs (kind included, nothing is converted);
+    dtype=None: the element type is the promotion over ALL rows and every entry holds its row's own value (same shape,
+    element of the promoted kind, same number / same text: no row is narrowed to another row's type);
+    explicit dtype: the requested type, every entry = its own row's output cast to it. *)
+Definition row_unchanged (k : skind) (o r : oval) : bool :=
+  shape_eqb o r && list_eqb (fun x y => has_kind k y && same_value x y) (elems o) (elems r).
+
+Definition row_cast_to (k : skind) (o r : oval) : bool :=
+  match cast_oval k o with Some r' => oval_eqb r' r | None => false end.
+
+Definition typed_ok (d : dreq) (outs : list oval) (ret : string * list oval) : bool :=
+  match d with
+  | DFalse => String.eqb (fst ret) "object"%string && list_eqb oval_eqb outs (snd ret)
+  | DNone =>
+      let k := promote_all (kinds outs) in
+      String.eqb (fst ret) (kind_name k) && list_eqb (row_unchanged k) outs (snd ret)
+  | DGiven k name => String.eqb (fst ret) name && list_eqb (row_cast_to k) outs (snd ret)
+  end.
+
+(** typed observation of one call of the vectorised callable *)
+Record tobs := {
+  t_dtype : dreq;
+  t_outs : list oval;                 (* what the operation returned, one entry per call, in call order *)
+  t_ret : string * list oval          (* dtype name and rows of the array the vectorised callable returned *)
+}.
+
+Definition ret_eqb (a b : string * list oval) : bool := String.eqb (fst a) (fst b) && list_eqb oval_eqb (snd a) (snd b).
+
+(** model = implementation for the collection step *)
+Definition typed_agree (t : tobs) : bool :=
+  match collect (t_dtype t) (t_outs t) with
+  | Some r => ret_eqb r (t_ret t)
+  | None => false
+  end.
+
 (** ** correspondence-check interface *)
 
 Record vcase := {
@@ -474,7 +674,8 @@ Record vcase := {
   v_meta : option dict;
   v_dtype_false : bool;
   v_impl : option (list call);    (* None = ValueError; calls in the order of the returned array's entries *)
-  v_impl_obj : bool               (* the returned array was a 1-d object array *)
+  v_impl_obj : bool;              (* the returned array was a 1-d object array *)
+  v_typed : option tobs           (* the operation's typed outputs and the returned array's dtype / entries *)
 }.
 
 (** what was observed of the stdout handling of one row: the standard output of the command (read by the inspection handler)
@@ -520,6 +721,7 @@ Definition vagree (c : vcase) : bool :=
   | VOk k calls, Some icalls =>
       list_eqb call_eqb calls icalls
       && Bool.eqb (v_impl_obj c) (match k with ObjArray => true | Converted => false end)
+      && match v_typed c with Some t => typed_agree t | None => true end
   | _, _ => false
   end.
 
@@ -534,6 +736,10 @@ Definition vok (c : vcase) : bool :=
       && (List.length calls =? n)
       && calls_ok_from 0 calls (v_inputs c) cs (v_kw c) (v_meta c)
       && (Bool.eqb (v_impl_obj c) (v_dtype_false c))
+      && match v_typed c with
+         | Some t => (List.length (t_outs t) =? List.length calls) && typed_ok (t_dtype t) (t_outs t) (t_ret t)
+         | None => true
+         end
   end.
 
 Definition model_ext (c : ecase) : option (list eresult) :=
